@@ -424,3 +424,56 @@ Definition observe (r : robot) (s : started) : observation :=
      ob_final := snapshot r s (trace_of r s) |}.
 
 End WithSubclass.
+
+(* ---- comparison with the implementation (used by work/C08/cases_*.v) -- *)
+Definition tok_eqb (a b : tok) : bool :=
+  match a, b with
+  | TStr x, TStr y => String.eqb x y
+  | TNat x, TNat y => Nat.eqb x y
+  | TAbs, TAbs | TNone, TNone | TOther, TOther | TSep, TSep => true
+  | _, _ => false
+  end.
+
+Fixpoint toks_eqb (a b : list tok) : bool :=
+  match a, b with
+  | [], [] => true
+  | x :: a', y :: b' => tok_eqb x y && toks_eqb a' b'
+  | _, _ => false
+  end.
+
+Fixpoint tokss_eqb (a b : list (list tok)) : bool :=
+  match a, b with
+  | [], [] => true
+  | x :: a', y :: b' => toks_eqb x y && tokss_eqb a' b'
+  | _, _ => false
+  end.
+
+Definition obs_eqb (a b : observation) : bool :=
+  toks_eqb (ob_ctor a) (ob_ctor b) && tokss_eqb (ob_setups a) (ob_setups b)
+  && toks_eqb (ob_final a) (ob_final b).
+
+(* isinstance as a finite table (a, b): instances of class a are instances of b *)
+Definition sub_of (pairs : list (cls * cls)) (a b : cls) : bool :=
+  existsb (fun p => Nat.eqb (fst p) a && Nat.eqb (snd p) b) pairs.
+
+(* what the implementation did: 0 started, 1 MagicInjectError, 2 TypeError,
+   3 anything else.  [ir_strict = false]: the definition has faults of both
+   error classes; which one is reported first is not compared. *)
+Record impl_result := { ir_outcome : nat; ir_strict : bool; ir_obs : observation }.
+
+Definition check_case (pairs : list (cls * cls)) (r : robot) (ir : impl_result) : bool :=
+  match startup (sub_of pairs) r, ir_outcome ir with
+  | Ok s, 0 => obs_eqb (observe r s) (ir_obs ir)
+  | Err EInject, 1 => true
+  | Err EType, 2 => true
+  | Err EInject, 2 => negb (ir_strict ir)
+  | Err EType, 1 => negb (ir_strict ir)
+  | _, _ => false
+  end.
+
+Fixpoint bad (i : nat) (l : list (list (cls * cls) * robot * impl_result)) : list nat :=
+  match l with
+  | [] => []
+  | (pairs, r, ir) :: rest =>
+    if check_case pairs r ir then bad (S i) rest else i :: bad (S i) rest
+  end.
